@@ -4,7 +4,7 @@ import ast
 from ..core.model import AnchorError
 from ..core.cfg import walk_shallow, cfg_of
 from ..core.facts import U
-from ..engine import fn_name, kwarg, local_defs, returns_of, vars_assigned_from, var_from_call, flows_into
+from ..engine import argn, fn_name, kwarg, local_defs, returns_of, vars_assigned_from, var_from_call, flows_into
 from ..kinds.taint import tainted_returns
 from ..kinds import shapes
 
@@ -21,11 +21,13 @@ EXPLANATION = (
     "diagonal does not depend on it), so that diagonal(X) and diag(K(X, X)) are the same function; S6 joint samples are mean + L z: the lower Cholesky factor "
     "of the posterior covariance multiplies the standard-normal draws from the left (orientation typing L / U / N - the factor "
     "is square, so shape typing cannot see a missing transpose); S7 the jitter search adds diagonal-typed terms only to the "
-    "matrix (diag / eye * c / a helper returning one): a scalar term would be broadcast to every entry. "
+    "matrix (diag / eye * c / a helper returning one): a scalar term would be broadcast to every entry; S8 the log-determinant "
+    "of the likelihood is accumulated in the log domain (sum of logs of the Cholesky diagonal, never the log of their product, which leaves "
+    "the double range for a few hundred points). "
     "NOT decided (the bulk of C08): that means, variances, likelihood values and updates equal the textbook expressions - "
     "a wrong sign, factor or a mathematically wrong but shape-correct formula is invisible to these rules.")
 
-FLOOR = {"S1": 3, "S2": 4, "S3": 8, "S4": 5, "S5": 2, "S6": 1, "S7": 1}
+FLOOR = {"S1": 3, "S2": 4, "S3": 8, "S4": 5, "S5": 2, "S6": 1, "S7": 1, "S8": 1}
 
 MODP = "syne_tune.optimizer.schedulers.searchers.bayesopt.gpautograd.posterior_utils."
 
@@ -44,19 +46,19 @@ def s1(ctx, rep):
         v = r[0].value.elts[1]
         inner = [x for x in ast.walk(v) if isinstance(x, ast.Call) and fn_name(x) == "maximum"]
         ok = len(inner) == 1 and "MIN_POSTERIOR_VARIANCE" in U(inner[0]) and \
-            flows_into(f, inner[0].args[0], lambda y: isinstance(y, ast.Call) and fn_name(y) == "diagonal")
+            flows_into(f, argn(inner[0], 0), lambda y: isinstance(y, ast.Call) and fn_name(y) == "diagonal")
     rep.put(ok, "S1", "taint", "predict_posterior_marginals: variances returned through maximum(., MIN_POSTERIOR_VARIANCE)", f, r[0] if r else None, "",
             "a predictive variance can be returned without the floor: round-off makes it negative / zero and the acquisition functions "
             "divide by its square root")
     g = P.func(MODP + "sample_and_cholesky_update")
     sq = [x for x in walk_shallow(g.node) if isinstance(x, ast.Call) and fn_name(x) == "sqrt"]
-    ok = len(sq) == 1 and isinstance(sq[0].args[0], ast.Call) and fn_name(sq[0].args[0]) == "maximum" and "MIN_POSTERIOR_VARIANCE" in U(sq[0].args[0])
+    ok = len(sq) == 1 and isinstance(argn(sq[0], 0), ast.Call) and fn_name(argn(sq[0], 0)) == "maximum" and "MIN_POSTERIOR_VARIANCE" in U(argn(sq[0], 0))
     rep.put(ok, "S1", "taint", "sample_and_cholesky_update: sqrt only of the floored variance", g, sq[0] if sq else None, "")
     h = P.func(MODP + "cholesky_update")
     sq = [x for x in walk_shallow(h.node) if isinstance(x, ast.Call) and fn_name(x) == "sqrt"]
     ok = len(sq) == 1
     if ok:
-        a = sq[0].args[0]
+        a = argn(sq[0], 0)
         ds = [a] if not isinstance(a, ast.Name) else [d for d in local_defs(h, a.id) if not isinstance(d, tuple)]
         ok = len(ds) == 1 and isinstance(ds[0], ast.Call) and fn_name(ds[0]) == "maximum" and "MIN_CHOLESKY_DIAGONAL_VALUE" in U(ds[0])
     rep.put(ok, "S1", "taint", "cholesky_update: the new diagonal entry is the sqrt of a value floored at MIN_CHOLESKY_DIAGONAL_VALUE**2", h,
@@ -103,10 +105,10 @@ def s2(ctx, rep):
     rep.put(not bad, "S2", "noninterference", "cholesky_computations: the Cholesky factor does not depend on the targets", g, None, "",
             "the factor depends on the targets: independent target columns would interact")
     pm = [deref(g, cr[0].elts[1])]
-    ok = isinstance(pm[0], ast.Call) and fn_name(pm[0]) == "solve_triangular" and U(pm[0].args[0]) == cfn and \
+    ok = isinstance(pm[0], ast.Call) and fn_name(pm[0]) == "solve_triangular" and U(argn(pm[0], 0)) == cfn and \
         U(kwarg(pm[0], "lower")) == "True"
     if ok:
-        cy = [deref(g, pm[0].args[1])]
+        cy = [deref(g, argn(pm[0], 1))]
         ok = isinstance(cy[0], ast.BinOp) and isinstance(cy[0].op, ast.Sub) and U(cy[0].left) == "targets" and "mean(features)" in U(cy[0].right)
     rep.put(ok, "S2", "agreement", "cholesky_computations: P = solve_triangular(L, Y - mean(X), lower=True), column by column", g, None, "")
     h = P.func(MODP + "cholesky_update")
@@ -145,18 +147,21 @@ def s3b(ctx, rep):
             if not (isinstance(x, ast.Call) and isinstance(x.func, ast.Name) and x.func.id in mod.functions):
                 continue
             g = mod.functions[x.func.id]
-            for kw_ in x.keywords:
-                if kw_.arg and kw_.arg in f.params and kw_.arg in g.params:
-                    n += 1
-                    ok = isinstance(kw_.value, ast.Name) and kw_.value.id == kw_.arg
-                    rep.put(ok, "S3", "agreement", f"{f.name} → {g.name}: parameter `{kw_.arg}` forwarded unchanged", f, kw_.value, "",
-                            f"`{kw_.arg}={U(kw_.value)}`: {g.name} receives something other than the caller's own `{kw_.arg}` (e.g. the kernel "
-                            "without its covariance scale): the incremental update no longer agrees with recomputing from scratch")
             ps = [p_ for p_ in g.params]
-            for i, a in enumerate(x.args):
-                if i < len(ps) and ps[i] in f.params and isinstance(a, ast.Name) and a.id in f.params:
-                    n += 1
-                    rep.put(a.id == ps[i], "S3", "agreement", f"{f.name} → {g.name}: positional `{ps[i]}` forwarded unchanged", f, a, "")
+            pairs = [(ps[i], a, False) for i, a in enumerate(x.args) if i < len(ps) and not isinstance(a, ast.Starred)] + \
+                    [(kw_.arg, kw_.value, True) for kw_ in x.keywords if kw_.arg]
+            for pn, a, by_name in pairs:
+                if pn not in f.params or pn not in g.params:
+                    continue
+                if pn == "kernel" and "covariance_scale" in g.params:
+                    continue        # this callee takes the kernel and its covariance scale separately
+                if not by_name and not (isinstance(a, ast.Name) and a.id in f.params):
+                    continue
+                n += 1
+                ok = isinstance(a, ast.Name) and a.id == pn
+                rep.put(ok, "S3", "agreement", f"{f.name} → {g.name}: parameter `{pn}` forwarded unchanged", f, a, "",
+                        f"`{pn}={U(a)}`: {g.name} receives something other than the caller's own `{pn}` (e.g. the kernel "
+                        "without its covariance scale): the incremental update no longer agrees with recomputing from scratch")
     return n
 
 
@@ -237,7 +242,7 @@ def s6(ctx, rep):
         if isinstance(e, ast.Call) and fn_name(e) == "cholesky_factorization":
             return "L"
         if isinstance(e, ast.Call) and fn_name(e) == "transpose" and e.args and depth > 0:
-            o = orient(e.args[0], depth - 1)
+            o = orient(argn(e, 0), depth - 1)
             return {"L": "U", "U": "L", "N": "NT", "NT": "N"}.get(o)
         if isinstance(e, ast.Attribute) and e.attr == "T" and depth > 0:
             o = orient(e.value, depth - 1)
@@ -317,6 +322,45 @@ def s7(ctx, rep):
         raise AnchorError("AddJitterOp: no sum involving the input matrix found")
 
 
+def s8(ctx, rep):
+    """the log-determinant is accumulated in the log domain: log is applied to the diagonal entries and the logs are summed.
+    `log(prod(diag L))` is the same number on paper and leaves the double range (-> +-inf) once n times log L_ii exceeds
+    about 700 in magnitude - small noise with near-duplicate inputs, or a few hundred points"""
+    from ..engine import deref
+    P = ctx.P
+    f = P.func(MODP + "negative_log_marginal_likelihood")
+    cf = f.params[0]
+    n = 0
+    for x in walk_shallow(f.node):
+        if isinstance(x, ast.Call) and fn_name(x) in ("log", "log2", "log10", "log1p") and x.args:
+            a = deref(f, argn(x, 0))
+            inner = [y for y in ast.walk(a) if isinstance(y, ast.Name) and y.id == cf]
+            for y in list(ast.walk(a)):
+                if isinstance(y, ast.Name) and y.id != cf:
+                    d = deref(f, y)
+                    inner += [z for z in ast.walk(d) if isinstance(z, ast.Name) and z.id == cf]
+            if not inner:
+                continue
+            n += 1
+            prods = [y for y in ast.walk(a) if isinstance(y, ast.Call) and fn_name(y) in ("prod", "cumprod", "det", "reduce")]
+            par, summed = getattr(x, "_parent", None), False
+            while par is not None and not isinstance(par, ast.stmt):
+                if isinstance(par, ast.Call) and fn_name(par) in ("sum", "nansum", "trace"):
+                    summed = True
+                par = getattr(par, "_parent", None)
+            if not summed:      # the log may be bound to a local that is summed afterwards
+                st = par
+                if isinstance(st, ast.Assign) and len(st.targets) == 1 and isinstance(st.targets[0], ast.Name):
+                    v = st.targets[0].id
+                    summed = any(isinstance(c_, ast.Call) and fn_name(c_) in ("sum", "nansum") and any(isinstance(z, ast.Name) and z.id == v for z in ast.walk(c_))
+                                 for c_ in walk_shallow(f.node))
+            rep.put(not prods and summed, "S8", "agreement", "negative_log_marginal_likelihood: the log-determinant is a sum of logs of the diagonal", f, x,
+                    U(x)[:80], f"`{U(x)[:80]}`: " + ("the diagonal entries are multiplied before the log is taken" if prods else "the logs of the diagonal are not summed") +
+                    " - the product of n diagonal entries under- or overflows long before its logarithm does, the criterion becomes +-inf")
+    if n < 1:
+        raise AnchorError("negative_log_marginal_likelihood: no logarithm of the Cholesky diagonal found")
+
+
 def run(ctx, rep, tier="quick"):
     s1(ctx, rep)
     s2(ctx, rep)
@@ -326,3 +370,4 @@ def run(ctx, rep, tier="quick"):
     s5(ctx, rep)
     s6(ctx, rep)
     s7(ctx, rep)
+    s8(ctx, rep)
